@@ -1,6 +1,10 @@
 package core
 
-import "strings"
+import (
+	"os"
+	"strings"
+	"time"
+)
 
 // Shrinking of failing inputs: a judged violation is reduced by deleting list
 // elements and by replacing a list by one of its own elements, as long as the
@@ -33,7 +37,7 @@ func shrinkCandidates(s Sexp, keep map[string]bool) []Sexp {
 		return rec(s, 0)
 	}
 	walk = func(path []int, node Sexp) {
-		if node.IsAtom || keep[node.Head()] {
+		if node.IsAtom || keep[node.Head()] || len(out) >= 400 {
 			return
 		}
 		for i, c := range node.List {
@@ -61,7 +65,8 @@ func (r *Run) shrink(in Sexp, class string, budget int) (Sexp, int) {
 	p := r.Prop
 	cur := in
 	used := 0
-	for progress := true; progress && used < budget; {
+	deadline := time.Now().Add(20 * time.Second)
+	for progress := true; progress && used < budget && time.Now().Before(deadline); {
 		progress = false
 		keep := map[string]bool{}
 		for _, h := range p.ShrinkKeep {
@@ -103,7 +108,11 @@ func (r *Run) ShrinkViolations() {
 	seen := map[string]bool{}
 	for i := range r.Res.Violations {
 		v := &r.Res.Violations[i]
-		if seen[v.Class] || v.Kind != "failing-input" || v.Input == "" || strings.HasPrefix(v.Input, "(plan …") {
+		if seen[v.Class] || v.Kind != "failing-input" || v.Input == "" || strings.HasPrefix(v.Input, "(plan …") || len(v.Input) > 20000 {
+			continue
+		}
+		// listed known findings are reported as they are (their witnesses are in the corpus)
+		if strings.Contains(","+os.Getenv("VERIF_KNOWN_CLASSES")+",", ","+v.Class+",") {
 			continue
 		}
 		seen[v.Class] = true
